@@ -281,6 +281,11 @@ private:
             // differ only in *when* it struck (events delivered before it, position attributed to it).
             std::string msg;
             if (ref.exception == var.exception && encodingErrorTiming(ref.dump, var.dump, b.cfg.api, plan.getb("mutated"), b.res, msg)) { o.cls = "encoding-error-timing"; o.detail = "transcoding fatal error: <" + msg + ">; " + o.detail; }
+            // Another narrow class: everything is equal except the byte offsets of getSrcOffset(), in a world that has an entity in a
+            // multi-byte encoding served by the ICU transcoder (the generator's only one is Shift_JIS).
+            else if (ref.exception == var.exception) { auto strip = [](const std::string& s) { std::string o2; for (size_t i = 0; i < s.size();) { if (s.compare(i, 5, " ofs=") == 0) { i += 5; while (i < s.size() && isdigit((unsigned char)s[i])) i++; } else o2 += s[i++]; } return o2; };
+                bool icuMultibyte = false; for (auto& r : b.res) if (r.enc == "Shift_JIS") icuMultibyte = true;
+                if (icuMultibyte && strip(ref.dump) == strip(var.dump)) { o.cls = "srcoffset-icu-multibyte"; o.detail = "only getSrcOffset() differs; " + o.detail; } }
         } else if (!documentedException(var.exception)) { o.violated = true; o.cls = "foreign-exception"; o.detail = var.exception; }
     }
 
